@@ -19,7 +19,7 @@ RULE = ('seeded generator: circular / hexagon-like / segmented / off-centre / sp
 ASSUMPTIONS = ['modes linearly independent on the mask (condition number < 1e8), as the property requires']
 PLAN = {'quick': {'gen': 8}, 'thorough': {'gen': 16, 'tests': 1}}
 REQUIRED_BUCKETS = ['modes:contiguous', 'modes:noncontiguous', 'modes:unordered', 'modes:single-high', 'normalize:True',
-                    'normalize:False', 'coords:default', 'coords:supplied', 'mask:circular', 'mask:segmented', 'mask:offcentre', 'mask:weighted', 'mask:subaperture', 'cond>1e4', 'coords:switched', 'outside:fill', 'coeffs:vector-forms', 'modes:very-high', 'modes:permuted-prefix', 'modes:many']
+                    'normalize:False', 'coords:default', 'coords:supplied', 'mask:circular', 'mask:segmented', 'mask:offcentre', 'mask:weighted', 'mask:subaperture', 'cond>1e4', 'coords:switched', 'outside:fill', 'coeffs:vector-forms', 'modes:very-high', 'modes:permuted-prefix', 'modes:many', 'modes:array-forms']
 REQUIRED_ANCHORS = ['anchor:zernike_fit', 'anchor:zernike_remove', 'anchor:zernike_compose', 'anchor:zernike_basis']
 REQUIRED_ORACLES = ['compose=own-basis', 'fit=coeffs', 'remove:residual-coeffs=0', 'remove=lstsq', 'remove:idempotent',
                     'remove:pure->0']
@@ -180,9 +180,23 @@ def workload(ctx, lentil):
         ctx.close('compose=own-basis', opd_l, opd_own, 1e-9, 'compose|value',
                   'zernike_compose differs from the sum of coefficient times textbook mode', desc, scale=sc)
         rtol = max(1e-10, cond * 1e-13)
+        modes_arg = modes
+        if i % 7 == 2:
+            # the list of modes in the forms a caller may hold it in: row / column matrix, tuple, unsigned 64-bit array
+            modes_arg = [np.array([modes]), np.array([modes]).T, tuple(modes), np.array(modes, dtype=np.uint64), np.array(modes, dtype=np.int16)][(i // 7) % 5]
+            ctx.bucket('modes:array-forms')
+            try:
+                resf = np.asarray(lentil.zernike_remove(opd_own, maskf, modes_arg, **kw), float) if normalize else None
+                if resf is not None:
+                    ctx.close('remove:pure->0', resf, np.zeros(shape), rtol, 'remove|pure|modes-array-form',
+                              'an OPD made only of the removed modes is not reduced to zero when the modes are given as a matrix / tuple / uint64 array',
+                              dict(desc, form=type(modes_arg).__name__ + str(np.shape(modes_arg))), scale=float(np.abs(opd_own).max()) + 1e-300)
+            except Exception as e:
+                ctx.check(False, 'remove:pure->0', f'remove|modes-array-form|raises={type(e).__name__}', str(e),
+                          dict(desc, form=type(modes_arg).__name__ + str(np.shape(modes_arg)) + str(getattr(modes_arg, 'dtype', ''))))
         try:
-            fit = lentil.zernike_fit(gen.layout(rng, opd_own), gen.layout(rng, maskf), modes, normalize=normalize, **kw)
-            ctx.close('fit=coeffs', np.asarray(fit, float), coeffs, rtol, 'fit|coeffs',
+            fit = lentil.zernike_fit(gen.layout(rng, opd_own), gen.layout(rng, maskf), modes_arg, normalize=normalize, **kw)
+            ctx.close('fit=coeffs', np.asarray(fit, float).ravel() if modes_arg is not modes else np.asarray(fit, float), coeffs, rtol, 'fit|coeffs',
                       'fitting a composed OPD does not return its coefficients', desc, scale=float(np.abs(coeffs).max()))
         except Exception as e:
             ctx.check(False, 'fit=coeffs', f'fit|raises={type(e).__name__}', str(e), desc)
